@@ -192,11 +192,17 @@ def faulty_connection_class():
     is rolled back by whoever handles the error)"""
     class Conn(sqlite3.Connection):
         fail_commit = False
+        fail_rollback = False      # the connection 'died': ROLLBACK (also the one done when it is released) fails
 
         def commit(self):
             if type(self).fail_commit:
                 raise sqlite3.OperationalError('database is locked')
             return sqlite3.Connection.commit(self)
+
+        def rollback(self):
+            if type(self).fail_rollback:
+                raise sqlite3.OperationalError('connection is dead')
+            return sqlite3.Connection.rollback(self)
     return Conn
 
 
@@ -273,6 +279,7 @@ def _finish_env(env, ns, d):
 
 def close_env(env):
     env.conn_cls.fail_commit = env.aux_conn_cls.fail_commit = False
+    env.conn_cls.fail_rollback = env.aux_conn_cls.fail_rollback = False
     for db in (env.db, env.aux_db):
         if db is None:
             continue
@@ -1277,6 +1284,9 @@ def run_session(env, case, objs, held=None):
                 raise HarnessError('unknown action %r' % (act,))
 
     def finish_body():
+        if case.get('rb_fault'):
+            # the connection dies at the end of the session: its final ROLLBACK / release fails
+            (env.aux_conn_cls if case['rb_fault'] == 'aux' else env.conn_cls).fail_rollback = True
         if end == 'commit_fault':
             # from now on COMMIT fails on the chosen database (the session is left normally, its commit fails)
             (env.aux_conn_cls if case.get('fault') == 'aux' else env.conn_cls).fail_commit = True
@@ -1380,6 +1390,9 @@ def run_session(env, case, objs, held=None):
         raise
     except Exception as e:
         from pony.orm import core
+        from pony.orm.dbapiprovider import DBException
+        if case.get('rb_fault') and isinstance(e, (core.TransactionError, DBException)):
+            return      # the failing ROLLBACK / release is reported by the session: expected
         if isinstance(e, core.TransactionError) and 'before suspending the generator' in str(e):
             raise Rejected('%s: %s' % (type(e).__name__, e))
         raise InSessionError('%s: %s' % (type(e).__name__, e))
@@ -1388,6 +1401,7 @@ def run_session(env, case, objs, held=None):
             raise HarnessError('the exception did not come out of the db_session')
     finally:
         env.conn_cls.fail_commit = env.aux_conn_cls.fail_commit = False
+        env.conn_cls.fail_rollback = env.aux_conn_cls.fail_rollback = False
 
 
 def effective_script(case):
